@@ -83,6 +83,8 @@ func main() {
 	switch os.Args[1] {
 	case "check":
 		os.Exit(cmdCheck(os.Args[2:]))
+	case "replay":
+		os.Exit(cmdReplay(os.Args[2:]))
 	case "rewrite":
 		fmt.Println(renameBuiltins(rewriteSpec(strings.Join(os.Args[2:], " "))))
 	default:
@@ -107,6 +109,7 @@ func cmdCheck(args []string) int {
 	timeout := fs.Int("timeout", 0, "per-obligation timeout (s)")
 	noEvidence := fs.Bool("no-evidence", false, "do not write evidence")
 	verbose := fs.Bool("v", false, "verbose")
+	noReplay := fs.Bool("no-replay", false, "do not replay counterexamples on the real code")
 	fs.Parse(args)
 	if *prop == "" {
 		fmt.Fprintln(os.Stderr, "-prop required")
@@ -117,6 +120,7 @@ func cmdCheck(args []string) int {
 	eng.contractsDir = filepath.Join(*verifDir, "contracts")
 	eng.keepSMT, eng.debug, eng.oblFilter = *keep, *debug, *oblFilter
 	eng.timeout = 10
+	eng.replay = !*noReplay
 	eng.reachNotes = *verbose || *tier == "thorough"
 	if *tier == "thorough" {
 		eng.timeout = 60
@@ -416,7 +420,8 @@ func (eng *Engine) report(prop, tier, verifDir string, units []*FuncUnit, report
 		st[k] = map[string]any{"obligations": solverCount[k], "secs": round3(v)}
 	}
 	cov := map[string]any{
-		"obligations": total, "discharged": discharged,
+		"obligations": total - len(knownHit), "discharged": discharged,
+		"known_finding_obligations": sortedBoolKeys(knownHit),
 		"checker_cmd": fmt.Sprintf("/verif/check %s --tier %s", prop, tier),
 		"trusted_base": tb, "samples": samples, "functions_under_contract": funcs,
 		"obligation_kinds": kinds, "vacuity_canaries_ok": canaries, "solver_time": st,
